@@ -123,7 +123,9 @@ def flatten_alts(s, key):
             return out
     if "enum" in s:
         for e in s["enum"]:
-            if isinstance(e, str):
+            if isinstance(e, str) and e.lower() == "end":
+                out.append(("enum:end", [T("qstr", e)], e))        # END is the block terminator: written quoted
+            elif isinstance(e, str):
                 out.append(("enum:" + e, [T("enum", e.upper())], e.upper()))
             elif isinstance(e, bool):
                 out.append(("enum:" + str(e), [T("kw", "TRUE" if e else "FALSE")], e))
@@ -431,7 +433,10 @@ class Writer:
         elif t.kind == "enum":
             self.emit(t.text)
         elif t.kind == "qstr":
-            if lay.bare_words and BARE_OK.match(t.text):
+            # (a bare word after a SYMBOL keyword not written in upper case is C05's known finding: kept out of
+            # the other checks' documents, exercised by C05 itself)
+            after_symbol = item is not None and item.key == "symbol" and lay.case != "upper" and not getattr(lay, "allow_symbol_case", False)
+            if lay.bare_words and BARE_OK.match(t.text) and not after_symbol:
                 self.emit(t.text)
             else:
                 q = lay.quote
@@ -508,7 +513,7 @@ def mini_doc(objtype, item, position="only", filler=None):
     return Block(objtype, items, False)
 
 
-def gen_doc(rng, usable, root="map", depth=0, max_depth=4, width=6):
+def gen_doc(rng, usable, root="map", depth=0, max_depth=4, width=6, child_ok=None):
     """random document: `usable` maps objtype -> list of Items known to parse (from the C19 sweep)"""
     pool = usable.get(root, [])
     seen = set()
@@ -519,14 +524,14 @@ def gen_doc(rng, usable, root="map", depth=0, max_depth=4, width=6):
         seen.add(it.key)
         items.append(it)
     if depth < max_depth:
-        kids = [c for c in children_of(root) if c[1] in usable]
+        kids = [c for c in children_of(root) if c[1] in usable and (child_ok is None or (root, c[1]) in child_ok)]
         rng.shuffle(kids)
         for key, ty, singleton in kids[:rng.randrange(0, 4)]:
             if ty == root and depth > 1:
                 continue
             n = 1 if singleton else rng.randrange(1, 3)
             for _ in range(n):
-                child = gen_doc(rng, usable, ty, depth + 1, max_depth, width)
+                child = gen_doc(rng, usable, ty, depth + 1, max_depth, width, child_ok)
                 child.singleton = singleton
                 items.insert(rng.randrange(0, len(items) + 1), child)
     return Block(root, items, False)
